@@ -655,6 +655,11 @@ pub mod verif_hooks {
         pub fn is_within_grace_period(&self) -> bool {
             self.0.is_within_grace_period()
         }
+
+        /// The real request to chronyd (Unix datagram socket), with its bookkeeping of the last answer.
+        pub fn get_tracking(&mut self) -> Option<Tracking> {
+            self.0.get_tracking()
+        }
     }
 
     pub fn phc_error_bound_from_path(path: &std::path::Path) -> Result<i64, std::io::Error> {
